@@ -262,8 +262,13 @@ def shapeop_case(rng, tier):
             if op != 'trace' and rng.random() < 0.5:
                 c['k'] = rng.randint(-5, 5)        # off-diagonals, also beyond the matrix
     elif op == 'sum':
-        s = tuple(rng.randint(1, 3) for _ in range(rng.randint(1, 3)))
+        s = tuple(rng.randint(1, 3) for _ in range(rng.randint(0, 3)))          # also a scalar polynomial (no array axes)
         c['x'], c['axis'] = intdata(rng, (D, P) + s), rng.choice([None] + list(range(-len(s), len(s))))
+        if len(s) >= 2 and rng.random() < 0.3:
+            k = rng.randint(1, len(s))
+            c['axis'] = sorted(rng.sample(range(len(s)), k))                      # a tuple of axes
+            if rng.random() < 0.5:
+                c['axis'] = [a - len(s) for a in c['axis']]
     elif op == 'tile':
         c['x'], c['reps'] = intdata(rng, (D, P, rng.randint(1, 3))), rng.randint(1, 3)
     elif op == 'diag':
@@ -298,6 +303,10 @@ def np_symvec(a, uplo):
     return a[iu] if uplo == 'U' else a.T[iu]
 
 
+def _ax(a):
+    return tuple(a) if isinstance(a, list) else a
+
+
 def shapeop_fails(ctx, case):
     op = case['op']
     x = np.array(case['x'])
@@ -307,7 +316,7 @@ def shapeop_fails(ctx, case):
         'reshape': (lambda v: algopy.reshape(v, tuple(case['shape'])), lambda a: a.reshape(tuple(case['shape']))),
         'transpose': (lambda v: algopy.transpose(v), lambda a: a.T),
         'T': (lambda v: v.T, lambda a: a.T),
-        'sum': (lambda v: algopy.sum(v, axis=case.get('axis')), lambda a: np.sum(a, axis=case.get('axis'))),
+        'sum': (lambda v: algopy.sum(v, axis=_ax(case.get('axis'))), lambda a: np.sum(a, axis=_ax(case.get('axis')))),
         'tile': (lambda v: algopy.tile(v, case.get('reps')), lambda a: np.tile(a, case.get('reps'))),
         'diag': ((lambda v: algopy.diag(v, case['k'])) if 'k' in case else (lambda v: algopy.diag(v)), lambda a: np.diag(a, case.get('k', 0))),
         'diag2': ((lambda v: algopy.diag(v, k=case['k'])) if 'k' in case else (lambda v: algopy.diag(v)), lambda a: np.diag(a, case.get('k', 0))),
@@ -370,7 +379,7 @@ def shapeop_fails(ctx, case):
     if op in ('transpose', 'T') and not np.shares_memory(y.data, u.data):
         return 'shapeop-view-%s: the transpose does not share memory with its parent' % op
     # model comparisons for the modelled structural ops
-    if op == 'sum' and case.get('axis') is not None:
+    if op == 'sum' and isinstance(case.get('axis'), int):
         m = ctx.model.arrs({'op': 'np', 'what': 'utsum', 'x': enc_arr(x), 'axis': int(case['axis'])})
         if isinstance(m, str) or not np.array_equal(np.asarray(m[0]).reshape(y.data.shape), y.data):
             return 'utsum-model: UTPM.sum(axis=%d) differs from the axis-arithmetic model' % case['axis']
